@@ -33,7 +33,9 @@ def disk_specs(tier):
     t0.update(A={1: [('a', .6), ('b', .4)], 2: [('ab', .7), ('cd', .3)]}, C={1: [('L', .6), ('U', .4)], 2: [('LL', .5), ('UL', .3), ('LU', .2)]})
     out = []
     for gr in ([('A2D1A2', .5), ('A2D1', .3), ('D1A1', .2)], [('A1A1A1', .6), ('A2A2', .4)], [('A1D1A1', .5), ('M', .3), ('A2O1A2D1A2', .2)],
-               [('A1A2A1A2', 1.0)], [('D1D1', .5), ('O1D1O1', .3), ('Y1Y1', .2)], [('M', 1.0)], [('A2A1A2', .5), ('A1A2A1', .5)]):
+               [('A1A2A1A2', 1.0)], [('D1D1', .5), ('O1D1O1', .3), ('Y1Y1', .2)], [('M', 1.0)], [('A2A1A2', .5), ('A1A2A1', .5)],
+               # one structure next to a dominant Markov line: under --skip_brute its probability is rescaled to just above 1.0 (0.2 / (1 - 0.8))
+               [('D2', .2), ('M', .8)], [('M', .9), ('D2', .1)], [('K4', .3), ('M', .7)]):
         spec = dict(t0)
         spec.update(grammar=gr, prince=D.PRINCE)
         out.append(spec)
@@ -55,47 +57,49 @@ def run_disk(shard, tier, acc):
     for idx, spec in enumerate(disk_specs(tier)):
         if idx % ns != si:
             continue
-        acc.evals += 1
-        R.write_ruleset(root, spec)
-        types, base = R.ref_loaded(spec)
-        om = spec.get('omen', R.DEFAULT_OMEN)
-        want = Counter()
-        for bp, reps in base:
-            import itertools
-            for ix in itertools.product(*[range(len(types[r])) for r in reps]):
-                want.update(R.expand_pt(types, list(zip(reps, ix)), omen=om))
-        case = {'kind': 'disk-guesses', 'spec': spec}
-        try:
-            g = D.load(G, root, False, False, 'Grammar')
-            q = Qc(g)
-            lines = []
-            g.print_guess = lines.append
-            n = 0
-            while True:
-                it = q.next()
-                if it is None:
-                    break
-                n += 1
-                acc.transitions += 1
-                if n > 20000:
-                    break
-                g.create_guesses(it['pt'])
-        except Exception as e:
-            acc.fail(case, 'raise: running the on-disk ruleset %r to exhaustion raised %r' % (spec['grammar'], e), sig='C02:raise', oracle='C02')
-            tree.rmtree(root)
+        for sb in ((False, True) if any(st == 'M' for st, _ in spec['grammar']) and len(spec['grammar']) > 1 else (False,)):
+            # (with a Markov line also under --skip_brute: the rescaled probabilities of what is left must not cost a pre-terminal)
+            acc.evals += 1
+            R.write_ruleset(root, spec)
+            types, base = R.ref_loaded(spec, sb, False)
+            om = spec.get('omen', R.DEFAULT_OMEN)
+            want = Counter()
+            for bp, reps in base:
+                import itertools
+                for ix in itertools.product(*[range(len(types[r])) for r in reps]):
+                    want.update(R.expand_pt(types, list(zip(reps, ix)), omen=om))
+            case = {'kind': 'disk-guesses', 'spec': spec, 'skip_brute': sb}
+            try:
+                g = D.load(G, root, sb, False, 'Grammar')
+                q = Qc(g)
+                lines = []
+                g.print_guess = lines.append
+                n = 0
+                while True:
+                    it = q.next()
+                    if it is None:
+                        break
+                    n += 1
+                    acc.transitions += 1
+                    if n > 20000:
+                        break
+                    g.create_guesses(it['pt'])
+            except Exception as e:
+                acc.fail(case, 'raise: running the on-disk ruleset %r to exhaustion raised %r' % (spec['grammar'], e), sig='C02:raise', oracle='C02')
+                tree.rmtree(root)
+                root = tree.mkdtemp('pcfgmc-c02d-')
+                continue
+            got = Counter(lines)
+            if any(v > 1 for v in want.values()) or len(base) > 1 or any(len(set(r)) < len(r) for _, r in base):
+                acc.nontrivial += 1
+            if got != want:
+                missing = list((want - got).elements())[:4]
+                extra = list((got - want).elements())[:4]
+                acc.fail(case, 'at: on-disk ruleset %r: the strings written over the whole run are not the language of the ruleset: %d derivations never written (e.g. %r), %d written too often or foreign (e.g. %r)'
+                         % (spec['grammar'], sum((want - got).values()), missing, sum((got - want).values()), extra), sig='C02:disk-guesses', oracle='C02')
+            import shutil
+            shutil.rmtree(root, ignore_errors=True)
             root = tree.mkdtemp('pcfgmc-c02d-')
-            continue
-        got = Counter(lines)
-        if any(v > 1 for v in want.values()) or len(base) > 1 or any(len(set(r)) < len(r) for _, r in base):
-            acc.nontrivial += 1
-        if got != want:
-            missing = list((want - got).elements())[:4]
-            extra = list((got - want).elements())[:4]
-            acc.fail(case, 'at: on-disk ruleset %r: the strings written over the whole run are not the language of the ruleset: %d derivations never written (e.g. %r), %d written too often or foreign (e.g. %r)'
-                     % (spec['grammar'], sum((want - got).values()), missing, sum((got - want).values()), extra), sig='C02:disk-guesses', oracle='C02')
-        import shutil
-        shutil.rmtree(root, ignore_errors=True)
-        root = tree.mkdtemp('pcfgmc-c02d-')
     tree.rmtree(root)
 
 
